@@ -239,6 +239,15 @@ class Acc:
                 self.add_violation(case, Violation(vexc.clause, "%s%s" % (note, vexc.detail)))
             else:
                 raise HarnessError("hypothesis flaky without recorded failure: %s" % exc)
+        except Exception as exc:  # noqa: BLE001
+            # an internal error of the test library while it was SHRINKING a failure (seen with 6.168: 'ValueError: 103 is
+            # not in list' in choice_to_index): the failing case itself was judged by check_case and stands; it is reported
+            # as it is, not as small as it could be
+            if "failure" not in holder:
+                raise
+            case, vexc = holder["failure"]
+            self.note("shrinking_ended_by_an_internal_error_of_hypothesis")
+            self.add_violation(case, Violation(vexc.clause, "%s\n(not fully shrunk: %s: %s)" % (vexc.detail, type(exc).__name__, exc)))
 
     # --- merge --------------------------------------------------------------
     def export(self):
